@@ -633,41 +633,57 @@ def q1Symbol (code : Nat) : Nat :=
   else 384 + (code - 56)
 
 open BV.MetaBlock BV.PrefixArith BV.Recoder in
-/-- Replay of a two-pass command buffer against the RFC semantics.  `done` = bytes of the
-meta-block produced so far, `st` = the reader state (output so far, distance ring).  Every code
-word must be in range (`code < 128`, `extra < 2^kNumExtraBits[code]`, code 40 unused), the
-literal buffer must be consumed exactly, and after the last command exactly `mlen` bytes must
-have been produced.  Returns the final reader state. -/
-def replayQ1 (wo : WordOracle) (window mlen : Nat) : List Nat → List Nat → Nat → RdSt → Option RdSt
-  | [], lits, done, st => if lits.isEmpty ∧ done = mlen then some st else none
-  | cmd :: cs, lits, done, st =>
-    let code := cmd % 256
-    let extra := cmd / 256
-    if code ≥ 64 ∨ code = 40 ∨ extra ≥ 2 ^ kNumExtraBits.getD code 0 ∨ done ≥ mlen then none else
-    match rfcInsTable[(rfcCmdDecode (q1Symbol code)).1]?, rfcCopyTable[(rfcCmdDecode (q1Symbol code)).2.1]? with
-    | some (ib, _), some (cb, _) =>
-      let ins := if code < 24 then ib + extra else ib
-      let cl := if code < 24 then cb else cb + extra
-      if ins > lits.length ∨ ins > mlen - done then none else
-      let out := st.out ++ lits.take ins
-      let lits := lits.drop ins
-      if done + ins = mlen then
-        (if cs.isEmpty ∧ lits.isEmpty then some ⟨out, st.ring⟩ else none)
-      else if (rfcCmdDecode (q1Symbol code)).2.2 then
-        -- implicit distance symbol 0
-        match applyCopy wo window 0 0 mlen (done + ins) cl out st.ring 0 0 with
+/-- One RFC command of a two-pass command buffer (one or two command words): `none` = rejected,
+`inl st` = the meta-block is complete in state `st`, `inr (cs, lits, done, st)` = continue.
+`done` = bytes of the meta-block produced so far, `st` = the reader state (output so far, distance
+ring).  Every code word must be in range (`code < 128`, `extra < 2^kNumExtraBits[code]`), the
+codes 0 (insert length 0) and 40 (copy length 2) must not occur (`BuildAndStoreCommandPrefixCode`
+maps both to the RFC symbol 128 and orders code 0 behind the codes 41..47 when it computes the bit
+patterns but before them in the stored code: the writer is only correct without them;
+`CreateCommands` never emits them). -/
+def stepQ1 (wo : WordOracle) (window mlen : Nat) (cmd : Nat) (cs lits : List Nat) (done : Nat) (st : RdSt) :
+    Option (RdSt ⊕ (List Nat × List Nat × Nat × RdSt)) :=
+  let code := cmd % 256
+  let extra := cmd / 256
+  if code ≥ 64 ∨ code = 0 ∨ code = 40 ∨ extra ≥ 2 ^ kNumExtraBits.getD code 0 ∨ done ≥ mlen then none else
+  match rfcInsTable[(rfcCmdDecode (q1Symbol code)).1]?, rfcCopyTable[(rfcCmdDecode (q1Symbol code)).2.1]? with
+  | some (ib, _), some (cb, _) =>
+    let ins := if code < 24 then ib + extra else ib
+    let cl := if code < 24 then cb else cb + extra
+    if ins > lits.length ∨ ins > mlen - done then none else
+    if done + ins = mlen then
+      (if cs.isEmpty ∧ (lits.drop ins).isEmpty then some (.inl ⟨st.out ++ lits.take ins, st.ring⟩) else none)
+    else if (rfcCmdDecode (q1Symbol code)).2.2 then
+      -- implicit distance symbol 0
+      match applyCopy wo window 0 0 mlen (done + ins) cl (st.out ++ lits.take ins) st.ring 0 0 with
+      | none => none
+      | some (n, st') => some (.inr (cs, lits.drop ins, done + ins + n, st'))
+    else
+      match cs with
+      | [] => none
+      | dcmd :: cs' =>
+        if dcmd % 256 < 64 ∨ dcmd % 256 ≥ 128 ∨ dcmd / 256 ≥ 2 ^ kNumExtraBits.getD (dcmd % 256) 0 then none else
+        match applyCopy wo window 0 0 mlen (done + ins) cl (st.out ++ lits.take ins) st.ring (dcmd % 256 - 64)
+            (dcmd / 256) with
         | none => none
-        | some (n, st') => replayQ1 wo window mlen cs lits (done + ins + n) st'
-      else
-        match cs with
-        | [] => none
-        | dcmd :: cs' =>
-          let dcode := dcmd % 256
-          let dextra := dcmd / 256
-          if dcode < 64 ∨ dcode ≥ 128 ∨ dextra ≥ 2 ^ kNumExtraBits.getD dcode 0 then none else
-          match applyCopy wo window 0 0 mlen (done + ins) cl out st.ring (dcode - 64) dextra with
-          | none => none
-          | some (n, st') => replayQ1 wo window mlen cs' lits (done + ins + n) st'
-    | _, _ => none
+        | some (n, st') => some (.inr (cs', lits.drop ins, done + ins + n, st'))
+  | _, _ => none
+
+open BV.MetaBlock BV.Recoder in
+/-- the command sequence, one unit of fuel per RFC command; at the end the literal buffer must be
+consumed exactly and exactly `mlen` bytes produced -/
+def replayGo (wo : WordOracle) (window mlen : Nat) : Nat → List Nat → List Nat → Nat → RdSt → Option RdSt
+  | 0, _, _, _, _ => none
+  | _ + 1, [], lits, done, st => if lits.isEmpty ∧ done = mlen then some st else none
+  | f + 1, cmd :: cs, lits, done, st =>
+    match stepQ1 wo window mlen cmd cs lits done st with
+    | none => none
+    | some (.inl fin) => some fin
+    | some (.inr (cs', lits', done', st')) => replayGo wo window mlen f cs' lits' done' st'
+
+open BV.MetaBlock BV.Recoder in
+/-- Replay of a two-pass command buffer against the RFC semantics: the final reader state -/
+def replayQ1 (wo : WordOracle) (window mlen : Nat) (cmds lits : List Nat) (done : Nat) (st : RdSt) : Option RdSt :=
+  replayGo wo window mlen (cmds.length + 1) cmds lits done st
 
 end BV.Fragment
